@@ -74,9 +74,8 @@ class BaseRandomLineAccessFile(collections.abc.Sequence, Generic[C], ABC):
             for n in range(len(self)):
                 yield self._get_item(n)
         else:
-            self._file_seek(0)
             for n in range(len(self)):
-                yield self._read_next_line()
+                yield self._read_line(n)
 
     @abstractmethod
     def _file_seek(self, offset: int):
@@ -236,7 +235,7 @@ class RandomLineAccessFile(BaseRandomLineAccessFile[str]):
         """
 
         if self.file is None:
-            self.file = open(self.path_to, "r")
+            self.file = open(self.path_to, "r", newline="\n")
             self._opened_in_process_with_id = os.getpid()
 
         return self
@@ -904,7 +903,7 @@ class TmpPool:
                 # already removed
                 pass
 
-        self._created_files = self._manager.list() if self._multi_proc else []
+        del self._created_files[:]
 
 
 class FilePool(Mapping[str, IO]):
